@@ -86,6 +86,14 @@ ObsOk(e) ==      \* integer / boolean observations
     [] op \in {"eq_one", "is_one"} -> e.v = B2I(S!IsOneD(x))
     [] op \in {"is_negative", "nt_is_negative"} -> e.v = B2I(x.c.s < 0)
     [] op \in {"is_positive", "nt_is_positive"} -> e.v = B2I(x.c.s > 0)
+\* the associated constants, Default, the crate-level limit, AsIntegerRatio of primitive integers
+ConstVal(name) ==
+  CASE name \in {"ZERO", "default", "nt_zero"} -> S!Ret(Z0, 0) [] name \in {"ONE", "nt_one"} -> S!Ret(BLit(1), 0)
+    [] name = "NEG_ONE" -> S!Ret(BLit(-1), 0) [] name = "TWO" -> S!Ret(BLit(2), 0) [] name = "TEN" -> S!Ret(BLit(10), 0)
+    [] name = "MAX" -> S!Ret(I128Max, 0) [] name = "MIN" -> S!Ret(BNeg(I128Max), 0) [] name = "DELTA" -> S!Ret(BLit(1), 18)
+    [] name = "MAX_N_FRAC_DIGITS" -> S!Ret(BLit(18), 0)
+ConstOk(e) == OutOf(e.out, "never") = ConstVal(e.name)
+IntRatioOk(e) == Num(e.num) = Num(e.v) /\ Num(e.den) = BLit(1)
 CmpOk(e) ==
   LET x == DecOf(e.x)  y == DecOf(e.y)  c == S!CmpVal(x, y)  op == e.op IN
   CASE op = "eq" -> e.v = B2I(c = 0) [] op = "ne" -> e.v = B2I(c # 0)
@@ -189,6 +197,8 @@ Conforms(e) ==
     [] e.ev = "un" -> UnOk(e, md)
     [] e.ev = "obs" -> ObsOk(e)
     [] e.ev = "cmp" -> CmpOk(e)
+    [] e.ev = "const" -> ConstOk(e)
+    [] e.ev = "intratio" -> IntRatioOk(e)
     [] e.ev = "acmp" -> AcmpOk(e)
     [] e.ev = "kern" -> KernOk(e)
     [] e.ev = "wide" -> WideOk(e, md)
